@@ -122,6 +122,7 @@ ORCH = {
     "run_contingency": [("pandapower.contingency.contingency", "run_contingency")],
     "run_contingency_ls2g": [("pandapower.contingency.contingency", "run_contingency_ls2g")],
     "estimate": [("pandapower.estimation.state_estimation", "estimate"), ("pandapower.estimation.state_estimation", "StateEstimation.estimate")],
+    "estimate_not_converging": [("pandapower.estimation.state_estimation", "estimate"), ("pandapower.estimation.state_estimation", "StateEstimation.estimate")],
 }
 # stages that are not pandapower functions but at whose boundary the user's tables are in a temporarily changed state
 EXTRA_STAGES = {("pandapower.contingency.contingency", "run_contingency_ls2g"): ["init_ls2g", "ContingencyAnalysisCPP"]}
@@ -195,7 +196,7 @@ def _stages(modname, fname):
 
 def make_fault(calc):
     def fn(ctx):
-        net = copy.deepcopy(_net_ls2g() if calc == "run_contingency_ls2g" else (_net_se() if calc == "estimate" else _net()))
+        net = copy.deepcopy(_net_ls2g() if calc == "run_contingency_ls2g" else (_net_se() if calc.startswith("estimate") else _net()))
         snap = _snapshot(net)
         w = ctx.var("fault_point", 0., 400.)
         kind = ctx.var("fault_kind", 0., float(len(FAULT_KINDS)))
@@ -246,6 +247,10 @@ def make_fault(calc):
                     net.gen["vn_kv"] = 110.; net.gen["xdss_pu"] = 0.2; net.gen["rdss_ohm"] = 0.1; net.gen["cos_phi"] = 0.9; net.gen["sn_mva"] = 10.
                     snap = _snapshot(net)
                     sys.modules["pandapower.shortcircuit.calc_sc"].calc_sc(net, fault="3ph", case="max")
+                elif calc == "estimate_not_converging":      # the estimator gives up after one iteration and returns normally
+                    ok = sys.modules["pandapower.estimation.state_estimation"].estimate(net, init="flat", fuse_buses_with_bb_switch=None, maximum_iterations=1)
+                    if not trace:
+                        ctx.true("estimation_reported_failure", not bool(ok["success"] if isinstance(ok, dict) else ok))
                 elif calc == "estimate":
                     sys.modules["pandapower.estimation.state_estimation"].estimate(net, init="flat", fuse_buses_with_bb_switch=None)
                 elif calc == "run_contingency_ls2g":
@@ -318,7 +323,7 @@ def make_builders(mode):
 
 def instances(tier):
     out = []
-    calcs = ["runpp", "rundcpp", "runopp", "calc_sc", "run_contingency", "run_contingency_ls2g", "estimate"] + (["rundcopp"] if tier == "thorough" else [])
+    calcs = ["runpp", "rundcpp", "runopp", "calc_sc", "run_contingency", "run_contingency_ls2g", "estimate", "estimate_not_converging"] + (["rundcopp"] if tier == "thorough" else [])
     for c in calcs:
         out.append(Inst(f"fault_schedule_{c}", make_fault(c), nvars=5, samples=3, max_paths=4000, meta=dict(part="B", calculation=c)))
     out.append(Inst("builders_pf", make_builders("pf"), nvars=40, samples=2, meta=dict(part="A", mode="pf"), raises=(UserWarning,)))
